@@ -19,6 +19,7 @@ RULE = ("Generated programs whose string literals (group labels, predicate opera
         "evaluating on generated inputs. (iii) a literal that spells program text (the tokens of two groups, the name of a field, the printed form of an earlier term) stays one constant, also when recompile()d into a live evaluator holding the program it spells. Non-trivial = some literal contains a quote, backslash, parenthesis or '+'; distinct "
         "by program text.")
 RULE += (' Since round 7: data-looking payloads (versions, dates, patterns, formats, expressions) in ==, in, ordering and substring tests on either side.')
+RULE += (' Since rounds 14-15: a slice of the catalogue in children with every environment variable the library consults set (none on the pinned tree).')
 ASSUMPTIONS = [
     "both sides of the AST comparison come from the current generator, so refactoring the emitted code cannot alarm",
     "string contents avoid their own delimiter and line breaks (not expressible in the language)",
